@@ -122,14 +122,14 @@ func checkC02(c *Ctx, r *Report) {
 			r2.Check(heldSuffix(lf.must[in], x.lock), fmt.Sprintf("%s: %s#%d under s%s", x.fn, calleeShort(call), i, x.lock), instrPos(in), 1, "", "concurrent callers interleave frames or reuse / skip a nonce: the peer's decryption fails or data is reordered", fmtHeld(lf.must[in]))
 		}
 	}
-	r2.onlyIn("call encrypt", callPred(ss("encrypt")), c.FnsOfPkg(nzP), ss("Write"))
-	r2.onlyIn("call decrypt", callPred(ss("decrypt")), c.FnsOfPkg(nzP), ss("Read"))
-	r2.onlyIn("call handshake message helpers", callPred(ss("readHandshakeMessage"), ss("sendHandshakeMessage")), c.FnsOfPkg(nzP), ss("runHandshake"))
-	r2.onlyIn("call runHandshake", callPred(ss("runHandshake")), c.FnsOfPkg(nzP), nzP+".newSecureSession")
+	r2.onlyCallers("call encrypt", []string{ss("encrypt")}, c.FnsOfPkg(nzP), ss("Write"))
+	r2.onlyCallers("call decrypt", []string{ss("decrypt")}, c.FnsOfPkg(nzP), ss("Read"))
+	r2.onlyCallers("call handshake message helpers", []string{ss("readHandshakeMessage"), ss("sendHandshakeMessage")}, c.FnsOfPkg(nzP), ss("runHandshake"))
+	r2.onlyCallers("call runHandshake", []string{ss("runHandshake")}, c.FnsOfPkg(nzP), nzP+".newSecureSession")
 	r2.onlyIn("install cipher states", func(in ssa.Instruction) bool {
 		return isFieldWrite(in, ssT+".enc") || isFieldWrite(in, ssT+".dec")
 	}, c.FnsOfPkg(nzP), ss("setCipherStates"))
-	r2.onlyIn("call setCipherStates", callPred(ss("setCipherStates")), c.FnsOfPkg(nzP), ss("readHandshakeMessage"), ss("sendHandshakeMessage"))
+	r2.onlyCallers("call setCipherStates", []string{ss("setCipherStates")}, c.FnsOfPkg(nzP), ss("readHandshakeMessage"), ss("sendHandshakeMessage"))
 
 	// ---- R3 ---------------------------------------------------------------
 	r3 := r.Rule("C02-R3", "E7", 3, "frame constants consistent with the 16-bit length prefix")
